@@ -1,6 +1,6 @@
 --------------------------------- MODULE Equiv ---------------------------------
 (* Model level of C05 / C23.  TLC enumerates  transformation x target x base variant:  every (transformation, target)      *)
-(* candidate on two corner base variants plus, per transformation, a seeded random subset (-seed) of candidates x base     *)
+(* candidate on one or two corner base variants plus, per transformation, a seeded random subset (-seed) of candidates x base     *)
 (* variants, keeps the APPLICABLE                                                                                          *)
 (* ones (EquivDef!Applicable: the documented / physical preconditions of neutrality), and computes for each                  *)
 (*     anets  the abstract original network(s)          tnet  the abstract transformed network (EquivDef!TNet)               *)
@@ -11,6 +11,7 @@
 (* The invariants below state the design of the correspondence itself.                                                       *)
 EXTENDS EquivDef, Randomization
 CONSTANTS Prop,           \* "C05" | "C23"
+          NCorner,        \* 1 | 2: number of corner base variants every candidate is run on
           NRandom         \* size of the random subset of (candidate x base variant) per transformation
 VARIABLES cfg, anets, tnet, changed
 
@@ -39,13 +40,14 @@ Cands(tr) ==
       [] tr = "merge" -> {T(tr, o, 0, "-", "-") : o \in {"12", "21"}}
       [] tr = "subnet" -> {T(tr, b, 0, "-", "-") : b \in {"b0", "b6", "b8"}}
 Trs == IF Prop = "C05" THEN C05Tr ELSE C23Tr
-AllCands == UNION {Cands(tr) : tr \in Trs}
 Mk(t, b) == [prop |-> Prop] @@ t @@ b
-Corners == {Mk(t, b) : t \in AllCands, b \in {Corner1, Corner2}}
+\* candidates that are applicable on at least one corner (the final filter in Init decides per base variant)
+CandsOK(tr) == {t \in Cands(tr) : Applicable(Mk(t, Corner1)) \/ Applicable(Mk(t, Corner2))}
+Corners == {Mk(t, b) : t \in UNION {CandsOK(tr) : tr \in Trs}, b \in IF NCorner = 1 THEN {Corner1} ELSE {Corner1, Corner2}}
 \* NRandom (candidate, base variant) pairs PER TRANSFORMATION, so that transformations with few targets are sampled as often as
 \* those with many
 MinI(a, b) == IF a <= b THEN a ELSE b
-SampleOf(tr) == LET S == Cands(tr) \X Bases IN RandomSubset(MinI(NRandom, Cardinality(S)), S)
+SampleOf(tr) == LET S == CandsOK(tr) \X Bases IN RandomSubset(MinI(NRandom, Cardinality(S)), S)
 Sampled == {Mk(p[1], p[2]) : p \in UNION {SampleOf(tr) : tr \in Trs}}
 Init == /\ cfg \in {c \in Corners \cup Sampled : Applicable(c)}
         /\ anets = ANetsOf(BaseNet(cfg), cfg)
